@@ -1,4 +1,5 @@
 import BfeVerif.C46.Proofs
+import BfeVerif.C46.SegProofs
 /-!
   C46 — PROXY protocol headers are parsed per specification.  Property theorems only.
 
@@ -330,6 +331,120 @@ theorem C46_passthrough_partial (env : Env) (stream : Bytes) (limit : Nat) (e : 
     connection is closed (the code insists on peeking 5, then 12 bytes) -/
 theorem C46_witness_passthrough_short :
     connRun ⟨fun _ => none⟩ [0x50, 0x4F, 0x53, 0x54] 0 .eof = rejectObs none := by decide
+
+/-- PROXY command with a family bfe cannot map to a TCP address (UNSPEC, UDP over IPv4/IPv6, UNIX stream/datagram):
+    whatever block and payload follow, the connection is rejected cleanly (the spec lets the receiver reject or fall
+    back to the real addresses) -/
+theorem C46_v2_other_family_rejected (env : Env) (fam : UInt8) (block pay : Bytes) (limit : Nat) (e : EndK)
+    (hf : fam ≠ 0x11 ∧ fam ≠ 0x21) (hlim : 16 ≤ effLimit limit) :
+    connRun env (encodeV2 0x21 fam block ++ pay) limit e = rejectObs none := by
+  unfold connRun
+  have hst : encodeV2 0x21 fam block ++ pay = sigV2 ++ (0x21 :: fam :: hi8 block.length :: lo8 block.length :: (block ++ pay)) := by
+    simp [encodeV2]
+  rw [hst]
+  rw [take_prefix_ge sigV2 _ _ (by simp [sigV2]; omega)]
+  generalize hR : readHeader env _ _ = r
+  by_cases hr : r = .err
+  · rw [hr]; rfl
+  · rcases readHeader_v2_sound env _ _ r hR hr with ⟨ht, _, _⟩ | ⟨vc, fam', block', rest, n, henc, _, _, _, hcase⟩
+    · exfalso
+      have hm : 1 ≤ effLimit limit - sigV2.length := by simp [sigV2]; omega
+      obtain ⟨m, hm'⟩ : ∃ m, effLimit limit - sigV2.length = m + 1 := ⟨effLimit limit - sigV2.length - 1, by omega⟩
+      rw [hm'] at ht
+      simp at ht
+    · have hm : 2 ≤ effLimit limit - sigV2.length := by simp [sigV2]; omega
+      obtain ⟨m, hm'⟩ : ∃ m, effLimit limit - sigV2.length = m + 2 := ⟨effLimit limit - sigV2.length - 2, by omega⟩
+      rw [hm'] at henc
+      simp [encodeV2] at henc
+      obtain ⟨hvc, hfam, _⟩ := henc
+      rcases hcase with ⟨h20, _⟩ | ⟨_, _, _, s, d, sp, dp, hr'⟩
+      · rw [← hvc] at h20; exact absurd h20 (by decide)
+      · rw [hr', ← hfam]
+        simp [connOf, resolve_other fam s sp hf.1 hf.2]
+
+
+
+/-- **v2 truncation at every offset**: whatever proper prefix of a v2 header arrives (then EOF or silence), not a
+    single byte is delivered to the application -/
+theorem C46_v2_truncated_no_data (env : Env) (vc fam : UInt8) (block : Bytes) (k limit : Nat) (e : EndK)
+    (h16 : block.length < 65536) (hk : k < (encodeV2 vc fam block).length) (hlim : 16 ≤ effLimit limit) :
+    (connRun env ((encodeV2 vc fam block).take k) limit e).data = [] := by
+  cases hcl : (connRun env ((encodeV2 vc fam block).take k) limit e).closed
+  · -- not rejected: only the legacy 13-byte LOCAL form is possible, and it carries no data
+    by_cases hk12 : 12 ≤ k
+    · have hst : (encodeV2 vc fam block).take k
+          = sigV2 ++ (vc :: fam :: hi8 block.length :: lo8 block.length :: block).take (k - 12) := by
+        unfold encodeV2
+        rw [take_prefix_ge sigV2 _ _ (by simp [sigV2]; omega)]; simp [sigV2]
+      rw [hst] at hcl ⊢
+      rcases C46_malformed_closes_v2_sound env _ limit e hlim hcl with ⟨_, _, hd⟩ | ⟨vc', fam', block', pay, henc, h16', _, _⟩
+      · exact hd
+      · exfalso
+        have hlen := congrArg List.length henc
+        rw [encodeV2_length] at hk
+        simp [encodeV2, sigV2] at hlen
+        -- the first 16 bytes agree, so both length fields are equal
+        have hk16 : 4 ≤ k - 12 := by omega
+        obtain ⟨m, hm⟩ : ∃ m, k - 12 = m + 4 := ⟨k - 12 - 4, by omega⟩
+        rw [hm] at henc
+        simp [encodeV2] at henc
+        obtain ⟨_, _, hhi, hlo, _⟩ := henc
+        have := len_of_hi_lo _ _ h16 h16' hhi hlo
+        omega
+    · exfalso
+      have hst : (encodeV2 vc fam block).take k = sigV2.take k := by
+        unfold encodeV2
+        rw [List.take_append_of_le_length (by simp [sigV2]; omega)]
+      rw [hst] at hcl
+      unfold connRun at hcl
+      rw [List.take_of_length_le (by simp [sigV2]; omega), readHeader_sig_prefix env _ k (by omega)] at hcl
+      simp [connOf, rejectObs] at hcl
+  · exact (C46_malformed_closes_no_data env _ limit e hcl).1
+
+
+/-! ### segmentation (round 2) -/
+
+/-- **C46_chunking_independent (partial: the reader primitives)**.  `Rdr` is bfe_bufio's reader over the header
+    limiter over a connection that delivers its bytes in ARBITRARY segments.  The two primitives the header parser
+    is built from — `Peek(n)` (`need n`, n ≤ 4096) and `ReadByte` — have results that are functions of the remaining
+    byte string `r.rest` alone, and leave `rest`/`all` shortened by exactly what they consumed.  Hence two
+    segmentations of the same stream cannot be told apart through them.  (The composition `parseV2Seg` in Seg.lean
+    is their straight-line combination; its equality with the chunk-free `parseV2` is exercised by the harness,
+    which delivers every fixture split at every offset, and is not yet a theorem.) -/
+theorem C46_chunking_independent_partial (r : Rdr) (S L : Nat) (hK : r.K S L) :
+    (∀ n, n ≤ bufSize →
+      (r.need n).rest = r.rest ∧ (r.need n).all = r.all ∧
+      (n ≤ (r.need n).buf.length ↔ n ≤ r.rest.length) ∧
+      (n ≤ (r.need n).buf.length → (r.need n).buf.take n = r.rest.take n)) ∧
+    (r.readByte = none ↔ r.rest = []) ∧
+    (∀ b r', r.readByte = some (b, r') → r.rest = b :: r'.rest ∧ r.all = b :: r'.all) := by
+  refine ⟨?_, ?_, ?_⟩
+  · intro n hn
+    obtain ⟨e1, e2, _, d⟩ := rdr_need_spec r n hn S L hK
+    have hpre : (r.need n).rest = (r.need n).buf ++ ((r.need n).segs.flatten).take (r.need n).N := rfl
+    refine ⟨e1, e2, ⟨?_, ?_⟩, ?_⟩
+    · intro h; rw [← e1, hpre]; simp; omega
+    · intro h
+      rcases d with d | d
+      · exact d
+      · rw [d, e1]; exact h
+    · intro h
+      rw [← e1, hpre, List.take_append_of_le_length h]
+  · constructor
+    · intro h; exact (readByte_none r S L hK h).1
+    · intro h
+      cases hb : r.readByte with
+      | none => rfl
+      | some p =>
+        obtain ⟨b, r'⟩ := p
+        have := (readByte_some r S L hK b r' hb).1
+        rw [h] at this; cases this
+  · intro b r' h
+    obtain ⟨a, b', _⟩ := readByte_some r S L hK b r' h
+    exact ⟨a, b'⟩
+
+example : ({ buf := [], segs := [[1], [], [2, 3]], N := 2 } : Rdr).K 3 2 := by simp [Rdr.K]
+example : (({ buf := [], segs := [[1], [], [2, 3]], N := 2 } : Rdr).need 2).buf = [1, 2] := by decide
 
 /-! ### non-vacuity -/
 
